@@ -721,7 +721,7 @@ def do_directions(part, start, end, counter):
             e2 = etree.SubElement(e1, "wedge", number="{}".format(number), type="stop")
 
         else:
-            number = range_number_from_counter(direction, "wedge", counter)
+            number = range_number_from_counter(direction, "dashes", counter)
             etree.SubElement(e1, "dashes", number="{}".format(number), type="stop")
 
         elem = (direction.end.t, None, e0)
